@@ -108,6 +108,10 @@ func New(opts ...Option) *Server {
 	for _, opt := range opts {
 		opt(cfg)
 	}
+	// a server without any security setting offers unsecured channels only
+	if len(cfg.enabledSec) == 0 {
+		EnableSecurity("None", ua.MessageSecurityModeNone)(cfg)
+	}
 	url := ""
 	if len(cfg.endpoints) != 0 {
 		url = cfg.endpoints[0]
@@ -322,12 +326,23 @@ func (s *Server) acceptAndRegister(ctx context.Context, l *uacp.Listener) {
 				}
 			}
 
-			go s.cb.RegisterConn(ctx, c, s.cfg.certificate, s.cfg.privateKey)
+			go s.cb.RegisterConn(ctx, c, s.cfg.certificate, s.cfg.privateKey, s.securityEnabled)
 			if s.cfg.logger != nil {
 				s.cfg.logger.Info("registered connection: %s", c.RemoteAddr())
 			}
 		}
 	}
+}
+
+// securityEnabled reports whether the security policy and mode are one of
+// the pairs registered with EnableSecurity, i.e. one of the advertised endpoints.
+func (s *Server) securityEnabled(policyURI string, mode ua.MessageSecurityMode) bool {
+	for _, sec := range s.cfg.enabledSec {
+		if sec.secPolicy == policyURI && sec.secMode == mode {
+			return true
+		}
+	}
+	return false
 }
 
 // monitorConnections reads messages off the secure channel connection and
